@@ -30,6 +30,12 @@ keys: NULL unless the ledger has that twin).  Ledger.tla states the lookups as e
 matches, model-checks the code's dict.get mechanism against them (LookupsEqDecl) and a mechanism that lower-cases the
 key must be rejected.
 
+The dictionaries are presented whole: the keys Beancount writes itself (booking: __tolerances__ on every transaction,
+interpolation: __automatic__ / __residual__ on postings, plugins: any __key__) are in the vocabulary (ledgergen.abs_meta
+keeps them, a dictionary value is the MV type "map"), in the alphabets of the specification, in the random direct ledgers,
+natively in every loaded ledger, and they are always among the keys looked up (user_keys); a `meta` column that hides them
+(meta() / any_meta() read that column) must be rejected (Mech = "publicmeta").
+
 Directive counts are free ("any directive types and counts"): an account may be opened / closed and a currency declared by
 several directives (Beancount reports that and keeps every directive; directly constructed entry lists carry them freely).
 #accounts / #commodities then have ONE row per account / currency and open_meta / open_date / close_date / commodity_meta
@@ -55,6 +61,7 @@ from harness.core import MachineryError
 
 GEN_PARTS = 8       # Gen_Ledger2 is emitted in 8 portions (by first directive)
 DUP_QUICK = 180     # ledgers of Gen_LedgerDup replayed in the quick tier
+OWN_KEYS = 4        # double-underscore keys (written by Beancount's booking / interpolation / plugins) looked up per ledger
 OOD_AMOUNT = {'n': [0, 0], 'c': '<out of the 32-bit domain>'}
 
 
@@ -580,6 +587,24 @@ def mixed_case_hits(posting_rows):
     return hits
 
 
+def own_key_hits(posting_rows, entry_rows=()):
+    """lookups (per function) of a key Beancount wrote itself (double underscore) that have a value, and meta cells that
+    hold such a key (non-vacuity: these keys are looked up where they are present)"""
+    hits = {}
+    for r in posting_rows or []:
+        for item in r.get('lk', []):
+            if item['k'].startswith('__'):
+                for short, fn in LK_POSTINGS:
+                    if item.get(short):
+                        hits[fn] = hits.get(fn, 0) + 1
+    for name, rows in (('postings.meta', posting_rows), ('entries.meta', entry_rows)):
+        for r in rows or []:
+            m = r.get('meta')
+            if isinstance(m, list) and m and any(kv[0].startswith('__') for kv in m[0]):
+                hits[name] = hits.get(name, 0) + 1
+    return hits
+
+
 def ties(abstract_entries):
     """accounts opened / closed and currencies declared by more than one directive: {kind: how many of them}"""
     seen = {}
@@ -614,8 +639,9 @@ def case_variants(keys, taken, limit=4):
 
 
 def user_keys(abstract_entries, limit=8):
-    """the keys looked up: the located ones, the first `limit` keys of the ledger (those with an upper-case letter
-    first: every key shape is looked up), case variants of them, a key no dictionary has"""
+    """the keys looked up: the located ones, the keys Beancount wrote itself (__tolerances__, __automatic__ ...: up to
+    OWN_KEYS of them), the first `limit` user keys of the ledger (those with an upper-case letter first: every key shape
+    is looked up), case variants of them, a key no dictionary has"""
     keys = []
     for d in abstract_entries:
         metas = [d['meta']] + [p['meta'][0] for p in d.get('postings', []) if p['meta']]
@@ -624,10 +650,12 @@ def user_keys(abstract_entries, limit=8):
                 if k not in keys and "'" not in k:
                     keys.append(k)
     keys = [k for k in keys if k not in ('filename', 'lineno')]
+    own = [k for k in keys if k.startswith('__')][:OWN_KEYS]      # written by Beancount itself: always looked up
+    keys = [k for k in keys if k not in own]
     mixed = [k for k in keys if k != k.lower()][:limit // 2]
     front = mixed + [k for k in keys if k not in mixed][:limit - len(mixed)]
     cands = mixed[:2] + [k for k in front if k not in mixed][:2] + mixed[2:]
-    return ['filename', 'lineno'] + front + case_variants(cands, front) + ['no_such_key']
+    return ['filename', 'lineno'] + own + front + case_variants(cands, front + own) + ['no_such_key']
 
 
 # ---- C2S recording ------------------------------------------------------------------------------------------------
@@ -657,6 +685,7 @@ class Recorder:
         self.statements = 0
         self.forms = {}
         self.mixed = {}
+        self.own = {}
         self.ties = {}
 
     def add(self, entries, options, kind, abstract=None, text_lookups=False, history=None):
@@ -699,6 +728,8 @@ class Recorder:
         self.cells += obs.cells
         for k, v in mixed_case_hits(obs.rows['postings']).items():
             self.mixed[k] = self.mixed.get(k, 0) + v
+        for k, v in own_key_hits(obs.rows['postings'], obs.rows['entries']).items():
+            self.own[k] = self.own.get(k, 0) + v
         for k in ties(abstract):
             self.ties[k] = self.ties.get(k, 0) + 1
         ctx.skipped += obs.ood_cells
@@ -779,6 +810,7 @@ class Recorder:
                      kinds=self.kinds, cells=self.cells, uncovered_cells=self.uncovered, what=what,
                      ledgers_read_after_a_history=self.with_history, history_statements_executed=self.statements,
                      history_forms=self.forms, lookups_of_keys_with_upper_case_letters_having_a_value=self.mixed,
+                     lookups_and_meta_cells_with_keys_written_by_beancount_itself=self.own,
                      ledgers_with_an_account_or_currency_of_several_directives=self.ties)
         return rejected
 
@@ -812,6 +844,7 @@ def s2c_eval(arg):
         kinds[d['k']] = kinds.get(d['k'], 0) + 1
     out = {'viol': viol, 'bad': bad, 'cells': obs.cells, 'uncovered': obs.uncovered, 'kinds': kinds,
            'mixed': mixed_case_hits(p['rows']['postings']), 'ties': ties(p['ledger']),
+           'own': own_key_hits(p['rows']['postings'], p['rows']['entries']),
            'key': ledger_key(p['ledger'], hist), 'nontrivial': 'txn' in kinds, 'hist': hist, 'statements': obs.statements}
     if viol or p.get('want_ledger'):
         out.update(ledger=p['ledger'], keys=p['keys'], row1=p['rows']['postings'][:1])
@@ -827,7 +860,7 @@ class S2C:
         self.rec = rec
         self.reload_every = reload_every
         self.stats = {'n': 0, 'cells': 0, 'bad': 0, 'uncovered': {}, 'kinds': {}, 'unprintable': 0, 'with_history': 0,
-                      'statements': 0, 'forms': {}, 'mixed': {}, 'ties': {}}
+                      'statements': 0, 'forms': {}, 'mixed': {}, 'own': {}, 'ties': {}}
         self.seen = set()
         # parse the per-table statements (about 1 s each with TatSu) once, before the workers are forked
         Observation([], lg.default_options(), []).run()
@@ -873,6 +906,8 @@ class S2C:
                 stats['kinds'][k] = stats['kinds'].get(k, 0) + v
             for k, v in r['mixed'].items():
                 stats['mixed'][k] = stats['mixed'].get(k, 0) + v
+            for k, v in r['own'].items():
+                stats['own'][k] = stats['own'].get(k, 0) + v
             for k in r['ties']:
                 stats['ties'][k] = stats['ties'].get(k, 0) + 1
             ctx.case(r['key'], r['nontrivial'], n=r['cells'])
@@ -916,7 +951,10 @@ def run(ctx):
         'freedom left by the statement: cost_label of a posting without cost may be \'\' or NULL; any_meta of a posting '
         'without metadata dictionary may be NULL or the transaction\'s value; #accounts and #commodities are compared as '
         'sets of rows; other_accounts, tags, links, metadata dictionaries are compared as sets',
-        'metadata keys starting with __ (loader internals) are outside the vocabulary and dropped on both sides',
+        'metadata dictionaries are presented whole: the keys Beancount writes itself while booking / interpolating / in '
+        'plugins (__tolerances__, __automatic__, __residual__ ...) are keys of "the metadata" of the directive / posting '
+        'like any other (the statement makes no exception: "every column equals the corresponding attribute", "NULL for '
+        'missing keys"); a dictionary-valued entry (the inferred tolerances) is compared by value (currency -> number)',
         'metadata keys are case-sensitive strings (Beancount: [a-z][a-zA-Z0-9-_]+, two keys that differ in the case of a '
         'letter are different keys of one dictionary): a lookup with a case variant of a present key is a lookup of a '
         'missing key (NULL) unless the dictionary has that variant too',
@@ -951,6 +989,10 @@ def run(ctx):
         tlc(ctx, 'MC_Ledger', 'MC_Ledger_inplace.cfg', leg='MC-nonvacuity', expect_violation='HistoryFree', workers=2)
         # the key space distinguishes keys by the case of their letters: a lookup that lower-cases the key is rejected
         tlc(ctx, 'MC_Ledger', 'MC_Ledger_foldcase.cfg', leg='MC-nonvacuity', expect_violation='LookupsEqDecl', workers=2)
+        # the meta column is the dictionary itself -- the keys Beancount wrote (__tolerances__, __automatic__) included: a
+        # column that hides them (so that meta() / any_meta(), which read that column, miss present keys) is rejected
+        tlc(ctx, 'MC_Ledger', 'MC_Ledger_publicmeta.cfg', leg='MC-nonvacuity', expect_violation='LookupsEqDecl', workers=2)
+        tlc(ctx, 'MC_Ledger', 'MC_Ledger_publicmeta_col.cfg', leg='MC-nonvacuity', expect_violation='MechEqDecl', workers=2)
         # several directives for one currency / account: a commodity map that keeps the FIRST directive (dict.setdefault)
         # is rejected for #commodities (and, thorough tier, for commodity_meta; an open/close map that keeps the first
         # LISTED directive whatever its date for #accounts)
@@ -997,6 +1039,7 @@ def run(ctx):
                 unprintable_for_reload=stats['unprintable'], ledgers_read_after_a_history=stats['with_history'],
                 history_statements_executed=stats['statements'], history_forms=stats['forms'],
                 lookups_of_keys_with_upper_case_letters_having_a_value=stats['mixed'],
+                lookups_and_meta_cells_with_keys_written_by_beancount_itself=stats['own'],
                 ledgers_with_an_account_or_currency_of_several_directives=stats['ties'])
         missing = [k for k in ('open', 'close', 'commodity') if not stats['ties'].get(k)]
         if missing:
@@ -1007,6 +1050,10 @@ def run(ctx):
                    if not stats['mixed'].get(fn)]
         if missing:
             raise MachineryError('vacuity: no generated ledger has a key with an upper-case letter where %s finds it' % missing)
+        missing = [fn for fn in ('meta', 'entry_meta', 'any_meta', 'postings.meta', 'entries.meta') if not stats['own'].get(fn)]
+        if missing:
+            raise MachineryError('vacuity: no generated ledger has a key written by Beancount itself (__key__) where %s '
+                                 'shows it' % missing)
         if not stats['with_history'] or not stats['forms'].get('agg') or stats['with_history'] == stats['n']:
             raise MachineryError('vacuity: the generator emitted %d of %d ledgers with a history (forms %s)'
                                  % (stats['with_history'], stats['n'], stats['forms']))
@@ -1043,6 +1090,10 @@ def run(ctx):
             if rec.lines and not ctx.violations and not (rec.ties.get('commodity') and rec.ties.get('open')):
                 raise MachineryError('vacuity: no recorded ledger declares a currency / opens an account by several '
                                      'directives (%s)' % rec.ties)
+            missing = [fn for fn in ('meta', 'entry_meta', 'any_meta', 'postings.meta', 'entries.meta') if not rec.own.get(fn)]
+            if rec.lines and not ctx.violations and missing:
+                raise MachineryError('vacuity: no recorded ledger has a key written by Beancount itself (__tolerances__, '
+                                     '__automatic__ ...) where %s shows it (%s)' % (missing, rec.own))
             if rec.lines and not ctx.violations and not (rec.mixed.get('open_meta') and rec.mixed.get('commodity_meta')):
                 raise MachineryError('vacuity: no recorded ledger has a key with an upper-case letter on an open and on a '
                                      'commodity directive that a posting looks up (%s)' % rec.mixed)
